@@ -24,7 +24,7 @@ TECHNIQUE = "property-based testing (Hypothesis), operation sequences on a share
 BUDGET = {"quick": 4000, "thorough": 100000}
 FUZZ = {"quick": 3200, "thorough": 160000}  # executions of the coverage-guided stage (vlib/fuzz.py)
 RULE = (
-    "case = (n, k, vector class in {orthonormal, biorthogonal, general}, real/complex data, list of 1-4 "
+    "case = (n, k, vector class in {orthonormal, biorthogonal, general, near_hermitian}, real / complex / mixed-dtype data, list of 1-4 "
     "(unary-operation sequence, application) pairs all applied to the same projector object). Non-trivial = complex "
     "data or L != R, AND some sequence has length >= 2 or the application is a composite/right action."
 )
